@@ -1758,6 +1758,10 @@ class ListBox(Widget, WidgetContainerMixin):
             if not rows:
                 continue
 
+            if row_offset + rows <= 0:
+                # scrolled off the top of the new page (as the old focus widget removed above)
+                continue
+
             # try selecting this widget
             pref_row = min(maxrow - row_offset - 1, rows - 1)
 
@@ -1814,6 +1818,9 @@ class ListBox(Widget, WidgetContainerMixin):
                 continue
 
             if not rows:  # never focus a 0-height widget
+                continue
+
+            if row_offset + rows <= 0:  # scrolled off the top of the new page
                 continue
 
             # if completely within snap region, adjust row_offset
